@@ -210,6 +210,12 @@ func (m *Map) CompareAndDelete(key, old interface{}) bool {
 	return false
 }
 
+// Clear is sync.Map.Clear (Go 1.23).
+func (m *Map) Clear() {
+	m.enter()
+	m.keys, m.vals = nil, nil
+}
+
 // Range calls f for each entry in insertion order.
 func (m *Map) Range(f func(key, value interface{}) bool) {
 	m.enter()
